@@ -196,6 +196,7 @@ impl ThrCheck {
             force_batch1: true,
             bridge_dups: false,
             abort_before_poll: false,
+            legacy_drops: false,
         };
         let mut srng = rng.fork("script");
         let so = gen_script(&mut srng, programs, host, &sc);
